@@ -44,19 +44,19 @@ def _sc(vc, lower, upper, i):
 
 
 from contracts.mcmc_gibbs import gibbs_take_step
-contract("C04", "gibbs_take_step", native=False)(gibbs_take_step)
+contract("C04", "gibbs_take_step", native=False, replay_with="limits_native")(gibbs_take_step)
 
 
 from contracts.mcmc_pca import pca_take_step
-contract("C04", "pca_take_step", native=False)(pca_take_step)
+contract("C04", "pca_take_step", native=False, replay_with="limits_native")(pca_take_step)
 
 
 from contracts.mcmc_hmc import hmc_take_step
-contract("C04", "hmc_take_step", native=False)(hmc_take_step)
+contract("C04", "hmc_take_step", native=False, replay_with="limits_native")(hmc_take_step)
 
 
 from contracts.mcmc_ensemble import ensemble_advance_walker
-contract("C04", "ensemble_advance_walker", native=False)(ensemble_advance_walker)
+contract("C04", "ensemble_advance_walker", native=False, replay_with="limits_native")(ensemble_advance_walker)
 
 
 # ---------------------------------------------------------------------------------------------------
